@@ -152,6 +152,7 @@ def wiring_check(rep, group_factory, label, family, timeout, extra=None, assume_
     prob = build()
     rep.encode(type(prob.model.g))
     specs, G = pipe.by_name_obligations(prob, extra=extra, assume_for=assume_for, abstract=abstract, skip_inputs=skip_inputs)
+    G.encode(rep)
     obs = []
     for oid, real, byn, cpath, oname in specs:
         obs += idents(oid, real, byn, assume=G.assumed, meta={"family": family, "comp": cpath, "out": oname})
